@@ -7,5 +7,19 @@ CLAIMS = {
         text="The finite core of the quantifier (all QFI x PDU type x with/without container, boundary payload lengths and TEIDs) is enumerated completely and every packet is parsed by an independently written TS 29.281/38.415 decoder; random TEIDs and payloads up to 9000 bytes extend it. Exhaustive over the header-shaping inputs, sampled over payload bytes.",
         note="Trusts the reference decoder written from the specifications; header form fixed to flags 0x34 as emitted by the UPF.",
     ),
+    "C19": dict(
+        level="exploration",
+        design_ref="DESIGN.md 3/C19",
+        technique="exhaustive enumeration of flag words against a table transcribed from TS 29.244 (cross-checked with go-pfcp accessors)",
+        text="Every apply-action value in 1/2-octet form, every 2-octet and (thorough) every 3-octet reporting-trigger value, all usage-report-trigger bits/pairs, all cause mappings and all volume-measurement flag subsets are enumerated; each accessor, exported constant and re-encoded IE is compared with an octet/bit table transcribed from the specification. Exhaustive over the stated finite domain; the table itself is validated against go-pfcp's independent accessors at start-up.",
+        note="Trusts the transcribed table and go-pfcp's Has*() accessors (used only for cross-checking the table; go-upf does not use them).",
+    ),
+    "C16": dict(
+        level="exploration",
+        design_ref="DESIGN.md 3/C16",
+        technique="grammar-based generation + near-miss mutation against an independent reference parser and a decode round trip (rapid)",
+        text="Rules are generated from the IPFilterRule grammar with boundary-biased addresses, prefixes, ports and spacing; ParseFlowDesc must agree with a reference parser written from the statement, and the netlink attributes produced by newFlowDesc must decode (gtp5gnl.DecodeFlowDesc) to the same filter, exchanged for uplink. Near-miss and arbitrary strings must not fault. Random sampling of an infinite input space.",
+        note="Trusts the reference parser and go-gtp5gnl's DecodeFlowDesc; any/assigned denote 0.0.0.0/0; port n equals range n-n.",
+    ),
 }
 PENDING = {}
